@@ -46,6 +46,12 @@ func (p propSpec) Deadline(tier int) time.Duration { return p.DeadlineT[tier] }
 const techSX = "symbolic execution of the real code's go/ssa (GoSX) with SMT (z3) deciding every branch and assertion over all values of the symbolic inputs within the stated bounds; counterexamples replayed natively"
 
 var properties = map[string]propSpec{
+	"C15": {
+		Level: "model_checking", Technique: techSX + "; differential against a hand-written ordered-choice recogniser/AST builder executed on the same symbolic bytes",
+		Bounds:  [2]string{"every byte string of length <= 3; 110 corpus strings (accepting and rejecting, every language-boundary fact of DESIGN.md Appendix B) concretely; for a seed-selected quarter of the corpus every position with one byte replaced by / one byte inserted as an unconstrained byte; token templates with symbolic token contents", "every byte string of length <= 4; windows over the whole corpus"},
+		Outside: "inputs longer than the symbolic bound that differ from every corpus string/template in more than the symbolic positions",
+		StepBudget: 600_000_000,
+	},
 	"C10": {
 		Level: "model_checking", Technique: techSX + "; the PEG engine, rule table, actions, utf8 decoding and strconv.Unquote run on symbolic bytes",
 		Bounds:  [2]string{"every byte string of length <= 3 (2^24+ inputs); 59 corpus strings (every rule and error production) concretely; for a seed-selected third of the corpus every position with one byte replaced by, or one byte inserted as, an unconstrained byte", "every byte string of length <= 4 (2^32+); windows over the whole corpus"},
